@@ -184,7 +184,8 @@ def _alarm(_sig, _frm):
 def _worker(case):
     """Run the real implementation on one case, under a watchdog."""
     signal.signal(signal.SIGALRM, _alarm)
-    signal.setitimer(signal.ITIMER_REAL, float(getattr(_MOD, "CASE_TIMEOUT_S", CASE_TIMEOUT_S)))
+    limit = float(getattr(_MOD, "CASE_TIMEOUT_S", CASE_TIMEOUT_S)) * float(os.environ.get("VERIF_TIMEOUT_SCALE", "1"))
+    signal.setitimer(signal.ITIMER_REAL, limit)
     try:
         r = _MOD.run_impl(case)
         r.setdefault("viol", [])
@@ -194,7 +195,7 @@ def _worker(case):
         r.setdefault("stats", {})
         return r
     except CaseTimeout:
-        return {"obs": [], "viol": [f"timeout: implementation call did not return within {CASE_TIMEOUT_S}s"],
+        return {"obs": [], "viol": [f"timeout: implementation call did not return within {limit}s"],
                 "nontrivial": True, "key": "timeout", "stats": {"timeout": 1}, "timeout": True}
     except Exception:
         return {"obs": [], "viol": [], "nontrivial": False, "key": "harness-error", "stats": {},
@@ -335,6 +336,8 @@ def run_property(mod, tier="quick", seed=0, replay=None):
     known_lines = []
     notes = []
 
+    if tier == "thorough":
+        os.environ.setdefault("VERIF_TIMEOUT_SCALE", "3")
     gate = lean_gate(mod, log)
     if tier == "thorough" and gate["ok"] and not os.environ.get("VERIF_NO_LEANCHECKER"):
         probs = leanchecker(mod, log)
